@@ -404,6 +404,15 @@ class LogTarget(object):
         self.log.append(("token", t))
         return t
 
+    gate = None      # set by a harness: an event the blocked() method waits for
+
+    def blocked(self, t):
+        """stays inside the method (keeping its worker occupied) until the harness opens the gate"""
+        self.log.append(("blocked", t))
+        if LogTarget.gate is not None:
+            LogTarget.gate.wait()
+        return t
+
     def boom(self, kind):
         self.log.append(("boom", kind))
         if kind == "unserialisable":
